@@ -18,6 +18,7 @@ def worker(slot):
         with lock:
             if not items: return
             d = items.pop(0)
-        subprocess.run(["python3", os.path.join(os.path.dirname(os.path.abspath(__file__)), "seedcheck.py"), str(slot), d], timeout=12000)
+        pref = os.environ.get("SEED_PREFIX", "")
+        subprocess.run(["python3", os.path.join(os.path.dirname(os.path.abspath(__file__)), "seedcheck.py"), str(slot), d] + (["--name", pref + os.path.basename(d)] if pref else []), timeout=12000)
 ts = [threading.Thread(target=worker, args=(first + i,)) for i in range(n)]
 [t.start() for t in ts]; [t.join() for t in ts]
